@@ -44,7 +44,7 @@ template<class T> static std::vector<T> values(uint64_t seed, Q la, Q lr, bool a
   int lo = emin - (int)std::floor(std::min(0.0, std::min(a, r))) , hi = emax - (int)std::ceil(std::max(0.0, std::max(a, r)));
   std::vector<T> v; std::mt19937_64 g(seed);
   v.push_back((T)0); v.push_back(-(T)0); v.push_back((T)1); v.push_back((T)-1);
-  if(lo>hi) return v;
+  if(lo>hi){ std::vector<T> z; z.push_back((T)0); z.push_back(-(T)0); return z; }
   auto mant=[&](){ return (T)(1.0L + (long double)(g()>>11)/(long double)(1ULL<<53)); };
   int span = hi-lo;
   for(int i=0;i<per;i++){ int e = lo + (int)((long long)span*i/std::max(1,per-1)); T x = std::ldexp(mant(), e); v.push_back(x); v.push_back(-x); }
@@ -52,7 +52,9 @@ template<class T> static std::vector<T> values(uint64_t seed, Q la, Q lr, bool a
   // edges of the admissible range and values around one
   v.push_back(std::ldexp(mant(), lo)); v.push_back(-std::ldexp(mant(), hi)); v.push_back(std::ldexp(mant(), hi)); v.push_back(-std::ldexp(mant(), lo));
   v.push_back((T)3); v.push_back((T)-7); v.push_back((T)0.1L); v.push_back((T)1000); v.push_back((T)273.15L); v.push_back((T)-40);
-  return v; }
+  // keep only values whose SI intermediate and result stay inside the admissible range ("does not overflow")
+  std::vector<T> w; for(T x: v){ if(x==0){ w.push_back(x); continue; } int e; std::frexp(x,&e); if(e-1>=lo && e-1<=hi) w.push_back(x); }
+  return w; }
 template<class T> static unsigned cls_of(T x){ if(x==0) return 1; T a=std::fabs(x); unsigned s = x<0 ? 16u:0u; const int h = std::numeric_limits<T>::max_exponent/2;
   int e; std::frexp(a,&e); unsigned m = e < -h ? 2u : e < -8 ? 4u : e <= 8 ? 8u : e <= h ? 32u : 64u; return m | (s? 128u:256u); }
 template<class T> static void score(Acc& acc, T x, T got, const Mag& A, const Mag& B){
